@@ -235,7 +235,8 @@ static void* gp_map_put_elem(
     const size_t            length,
     const GPUint128         key,
     const void*const        elem,
-    const size_t            elem_size)
+    const size_t            elem_size,
+    void (*const            destructor)(void*))
 {
     uint8_t* values = (uint8_t*)(slots + length);
     const size_t i  = *gp_u128_lo(&key) & (length - 1);
@@ -253,6 +254,15 @@ static void* gp_map_put_elem(
         slots[i].key  = key;
         return (void*)slots[i].element;
     }
+    if (slots[i].element != NULL && memcmp(&slots[i].key, &key, sizeof key) == 0)
+    { // key is already in the map, replace it's element
+        destructor((void*)slots[i].element);
+        if (elem_size == 0)
+            slots[i].element = elem;
+        else if (elem != NULL)
+            memcpy((void*)slots[i].element, elem, elem_size);
+        return (void*)slots[i].element;
+    }
     const size_t next_length = gp_next_length(length);
     if (slots[i].slot.index == GP_IN_USE)
     {
@@ -266,7 +276,8 @@ static void* gp_map_put_elem(
         next_length,
         gp_shift_key(key, length),
         elem,
-        elem_size);
+        elem_size,
+        destructor);
 }
 
 void* gp_map_put(
@@ -280,7 +291,8 @@ void* gp_map_put(
         map->length,
         key,
         value,
-        map->element_size);
+        map->element_size,
+        map->destructor);
 }
 
 static void* gp_map_get_elem(
